@@ -284,3 +284,16 @@ package pool
 //@ func (*Message) GetOptionUint32(id message.OptionID) (v uint32, err error)
 //@   trusted
 //@   requires r != nil
+//
+// ---- C12: recycling does not decide ownership ------------------------------------------------------------
+//
+// Reset (run by the pool when a message is given back) empties the message and keeps its buffers; it
+// does not touch the hijacked flag - whether the library or the application is responsible for releasing
+// a message is decided by Hijack alone, and the receive path reads the flag after the application may
+// already have given the message back.
+//
+//@ func (*Message) Reset()
+//@   requires r != nil
+//@   modifies r.msg.Token, r.msg.Code, r.msg.Options, r.msg.MessageID, r.msg.Type, r.msg.Payload, r.valueBuffer, r.body, r.isModified, r.controlMessage, r.bufferMarshal, r.bufferUnmarshal
+//@   ensures [emptied] len(r.msg.Options) == 0 && r.msg.Token == nil && r.msg.Payload == nil && r.body == nil && !r.isModified && r.msg.Code == 0
+//@   ensures [ownership-flag-kept] atomicLoad(r.hijacked) == old(atomicLoad(r.hijacked))
